@@ -1,5 +1,6 @@
 //! Conformance harness driver: executes scenarios against the real generic-array code.
 pub mod alloc;
+pub mod big;
 pub mod elems;
 pub mod events;
 pub mod interp;
@@ -23,6 +24,7 @@ fn main() {
         if info.payload().is::<elems::Injected>() {
             return;
         }
+        let _b = events::Bypass::new();
         let msg = format!("{}", info);
         if msg.contains("HARNESS") {
             eprintln!("{}", msg);
@@ -38,6 +40,7 @@ fn main() {
 fn dispatch(args: Vec<String>) {
     match args[1].as_str() {
         "script" => run_script(&args[2], &args[3], flag(&args, "--from").unwrap_or(0), flag(&args, "--count").unwrap_or(usize::MAX)),
+        "big" => run_each(&args[2], &args[3], flag(&args, "--from").unwrap_or(0), flag(&args, "--count").unwrap_or(usize::MAX), big::run_case),
         "views" => run_each(&args[2], &args[3], flag(&args, "--from").unwrap_or(0), flag(&args, "--count").unwrap_or(usize::MAX), views::run_case),
         x => {
             eprintln!("unknown subcommand {}", x);
